@@ -1,3 +1,4 @@
+import Heathcliff.Proofs.C02V
 import Heathcliff.Proofs.C02K
 
 /- Property theorems only (statements verbatim; proofs are the helper lemmas of Heathcliff/Proofs). -/
@@ -56,5 +57,104 @@ theorem prog_hom {S T : Type} [CommRing S] [CommRing T] (dec : S →+* T) (inp p
 
 /-- non-vacuity: sizes 3 × 2: output polynomial 2 collects the pairs (1,1), (2,0) -/
 example : mulPairs 3 2 2 = [(1, 1), (2, 0)] := by decide
+
+
+/-! ### evaluator operations of the model are the ring operations on phases, for all sizes 2..16
+    (statements, hypothesis bundles and non-vacuity instances: Heathcliff/Proofs/C02V.lean, section "Property theorems") -/
+
+/-- V1 residues: `ctNegate` succeeds on a canonical ciphertext, keeps size / representation / correction factor, the result is
+    canonical and every residue is `(q_i − x) mod q_i` -/
+theorem ctNegate_spec : type_of% @HC.ctNegate_spec := @HC.ctNegate_spec
+
+/-- V1 phase: in every commutative ring in which `q_i = 0`, for every secret `s` (and every reading `e` of the positions),
+    the phase Σ_k c_k s^k of component `i` is negated -/
+theorem ctNegate_phase : type_of% @HC.ctNegate_phase := @HC.ctNegate_phase
+
+/-- V2 residues: `ctTranslate` (add / sub of canonical ciphertexts of ANY two sizes, same representation and correction factor)
+    succeeds; the result has size max(n1, n2), is canonical, and polynomial k is `a_k ± b_k` where both exist, `a_k` beyond the
+    size of b, and `b_k` resp. `−b_k` (subtraction) beyond the size of a -/
+theorem ctTranslate_spec : type_of% @HC.ctTranslate_spec := @HC.ctTranslate_spec
+
+/-- V2 phase: in every commutative ring in which `q_i = 0`, the phase of the result of `ctTranslate` is the sum resp. difference
+    of the phases — for all pairs of sizes (this is `translate_phase` of C02K instantiated with the model's output) -/
+theorem ctTranslate_phase : type_of% @HC.ctTranslate_phase := @HC.ctTranslate_phase
+
+/-- V2 refusals: operands in different representations are refused; different correction factors are not handled by
+    `ctTranslate` itself (error; they go through `ctTranslateBalanced`) -/
+theorem ctTranslate_refuse_ntt : type_of% @HC.ctTranslate_refuse_ntt := @HC.ctTranslate_refuse_ntt
+
+theorem ctTranslate_error_cf : type_of% @HC.ctTranslate_error_cf := @HC.ctTranslate_error_cf
+
+/-- V3 refusal: the dyadic product needs both operands in NTT form -/
+theorem ctMultiplyDyadic_refuse : type_of% @HC.ctMultiplyDyadic_refuse := @HC.ctMultiplyDyadic_refuse
+
+/-- V3 residues: the dyadic product of canonical NTT-form ciphertexts of ANY sizes n1, n2 succeeds, has n1 + n2 − 1 canonical
+    polynomials, and residue (i, j) of polynomial k is Σ_{x + y = k} a_x[i][j] · b_y[i][j] mod q_i (the pairs are those of
+    `mulPairs`, characterised by `mulPairs_spec`) -/
+theorem ctMultiplyDyadic_spec : type_of% @HC.ctMultiplyDyadic_spec := @HC.ctMultiplyDyadic_spec
+
+/-- V3 phase: in every commutative ring in which `q_i = 0`, reading the NTT slots through orthogonal idempotents `e`
+    (`e j = δ_j` in the product ring of the slots, or `e = δ_{j0}` for one slot), the phase of the result is the PRODUCT of
+    the phases, for every secret `s` — `ct_mul_phase` of C02K instantiated with the model's output -/
+theorem ctMultiplyDyadic_phase : type_of% @HC.ctMultiplyDyadic_phase := @HC.ctMultiplyDyadic_phase
+
+/-- one NTT slot, in `ZMod q_i` (the reading `e = δ_j`; `q_i = 0` holds by `ZMod.natCast_self`): the slot-wise phase of the
+    dyadic product is the product of the slot-wise phases, for every value `s` of the secret in that slot -/
+theorem ctMultiplyDyadic_slot : type_of% @HC.ctMultiplyDyadic_slot := @HC.ctMultiplyDyadic_slot
+
+/-- V3 coefficient form (NTT multiplicativity of C09): for a level whose tables are well formed, the coefficient form
+    `intt` of result polynomial k is Σ_{x + y = k} (intt a_x) ⊛ (intt b_y), the NEGACYCLIC products modulo (X^N + 1, q_i)
+    (`negMulNat`), summed modulo q_i — i.e. the coefficient-form ciphertext is the Cauchy product of the coefficient-form
+    operands in Z_{q_i}[X]/(X^N + 1), whose phase is the product of the phases by `ct_mul_phase` -/
+theorem ctMultiplyDyadic_coeff : type_of% @HC.ctMultiplyDyadic_coeff := @HC.ctMultiplyDyadic_coeff
+
+/-- V5 refusal: `multiply_plain_ntt` needs the ciphertext in NTT form -/
+theorem ctMultiplyPlainNtt_refuse : type_of% @HC.ctMultiplyPlainNtt_refuse := @HC.ctMultiplyPlainNtt_refuse
+
+/-- V5 residues: every polynomial of a canonical NTT-form ciphertext is multiplied dyadically by the canonical plaintext -/
+theorem ctMultiplyPlainNtt_spec : type_of% @HC.ctMultiplyPlainNtt_spec := @HC.ctMultiplyPlainNtt_spec
+
+/-- V5 phase: the phase is multiplied by the value of the plaintext (NTT slots read through orthogonal idempotents) -/
+theorem ctMultiplyPlainNtt_phase : type_of% @HC.ctMultiplyPlainNtt_phase := @HC.ctMultiplyPlainNtt_phase
+
+/-- V4 product: `bgvMultiply` is the dyadic product (all conclusions of `ctMultiplyDyadic_spec` / `_phase` apply to `c`) with the
+    correction factor replaced by the product of the factors modulo t -/
+theorem bgvMultiply_spec : type_of% @HC.bgvMultiply_spec := @HC.bgvMultiply_spec
+
+theorem bgvMultiply_refuse : type_of% @HC.bgvMultiply_refuse := @HC.bgvMultiply_refuse
+
+/-- the product of unit correction factors is a unit in range, so the product of canonical BGV ciphertexts is canonical -/
+theorem bgvMultiply_canon : type_of% @HC.bgvMultiply_canon := @HC.bgvMultiply_canon
+
+/-- V4 sum, equal factors: no balancing -/
+theorem ctTranslateBalanced_same : type_of% @HC.ctTranslateBalanced_same := @HC.ctTranslateBalanced_same
+
+/-- V4 refusal: a first correction factor that is not a unit modulo t cannot be balanced -/
+theorem ctTranslateBalanced_refuse : type_of% @HC.ctTranslateBalanced_refuse := @HC.ctTranslateBalanced_refuse
+
+/-- V4 sum, different factors: with the multipliers (f, e1, e2) returned by `balanceCorrectionFactors` (characterised by
+    `balance_spec`: e1·f1 ≡ e2·f2 ≡ f mod t), the result has correction factor f and polynomial k is
+    `e1·a_k ± e2·b_k` (all residue-wise mod q_i) with the tail of the longer operand scaled (and negated for a subtrahend) -/
+theorem ctTranslateBalanced_spec : type_of% @HC.ctTranslateBalanced_spec := @HC.ctTranslateBalanced_spec
+
+/-- V4 phase: in every commutative ring in which `q_i = 0`, phase(result) = e1·phase(a) ± e2·phase(b) -/
+theorem ctTranslateBalanced_phase : type_of% @HC.ctTranslateBalanced_phase := @HC.ctTranslateBalanced_phase
+
+/-- V4 totality: for unit correction factors below t the balanced add / sub always succeeds -/
+theorem ctTranslateBalanced_total : type_of% @HC.ctTranslateBalanced_total := @HC.ctTranslateBalanced_total
+
+/-- V4 decoding (per coefficient, `Spec.bgvDecode = map (c02v_dec t cf)`): if the exact phase coefficient of the balanced sum is
+    congruent to e1·x1 ± e2·x2 modulo t (which the phase theorem gives as long as the integers do not wrap modulo Q), then
+    decoding with the new factor f gives the sum resp. difference of the operands' decodings modulo t -/
+theorem bgvDecode_balanced : type_of% @HC.bgvDecode_balanced := @HC.bgvDecode_balanced
+
+/-- V4 decoding of a product: correction factors multiply, decodings multiply -/
+theorem bgvDecode_mul : type_of% @HC.bgvDecode_mul := @HC.bgvDecode_mul
+
+/-- V4 decoding, whole polynomials under `Spec.bgvDecode` -/
+theorem bgvDecode_balanced_poly : type_of% @HC.bgvDecode_balanced_poly := @HC.bgvDecode_balanced_poly
+
+/-- `CtCanon` is what the model's validator `ctValid` (`Ciphertext::is_valid_for`) establishes for a non-empty ciphertext -/
+theorem CtCanon_of_ctValid : type_of% @HC.CtCanon.of_ctValid := @HC.CtCanon.of_ctValid
 
 end HC.C02
